@@ -36,7 +36,7 @@ def check(ctx):
         ctx.notes.append("model replay skipped because the direct measurement already found violations")
         return ctx.finish("model_checking")
     fdlib.run_config(ctx, "MC_FD_hostile", "hostile", params, what="blocks at and beyond the 128 KiB limit, all strategies and front ends",
-                     select=(lambda f: f["name"] not in ("bomb_window_8m", "f1_32800")) if q else (lambda f: f["name"] != "f1_32800"))
+                     select=(lambda f: f["name"] not in ("bomb_window_8m", "f1_32800", "long_win1k")) if q else (lambda f: f["name"] not in ("f1_32800", "long_win1k")))
     fdlib.random_schedules(ctx, 6 if q else 60)
     ctx.assumptions += ["heap bound: 2 * (window + requested + 128 KiB) + the frame itself + 4 MiB slack, measured with a counting global allocator",
                         "hostile blocks are produced by sequences and by RLE literals; Huffman-literal bombs are covered by the same literals-size check"]
